@@ -1006,7 +1006,9 @@ func selftestMain(args []string) int {
 	fs := flag.NewFlagSet("selftest", flag.ExitOnError)
 	prop := fs.String("prop", "", "property id, or empty for all")
 	seeds := fs.Int64("seeds", 40, "run indexes per configuration")
+	onlyCfg := fs.String("only-config", "", "every run in this configuration (e.g. interleaved)")
 	_ = fs.Parse(args)
+	forcedConfig = *onlyCfg
 	self, _ := os.Executable()
 	dir, err := os.MkdirTemp("", "verifsim-self-")
 	if err != nil {
@@ -1025,6 +1027,12 @@ func selftestMain(args []string) int {
 			return 2
 		}
 		n := *seeds * int64(len(chk.AllConfigs()))
+		if *onlyCfg != "" {
+			if chk.Tenants == nil {
+				continue
+			}
+			n = *seeds
+		}
 		var ref map[int64]HashRec
 		pairs := 0
 		for _, cfg := range [][2]int{{1, 1}, {4, 4}, {16, 16}, {16, 1}, {3, 4}} {
